@@ -1,0 +1,13 @@
+//go:build verif
+
+package models
+
+// Thin exported wrappers over unexported helpers for the /verif correspondence
+// harness (property C12). No behaviour of their own.
+
+func VerifUnescapeMeasurement(in []byte) []byte { return unescapeMeasurement(in) }
+func VerifEscapeTag(in []byte) []byte           { return escapeTag(in) }
+func VerifUnescapeTag(in []byte) []byte         { return unescapeTag(in) }
+func VerifUnescapeStringField(in string) string { return unescapeStringField(in) }
+func VerifSetUintSupport(on bool)               { enableUint64Support = on }
+func VerifUintSupport() bool                    { return enableUint64Support }
